@@ -10,7 +10,7 @@ inside Coq against the model (create_agrees) and by the specification
 adversarial strings.  Object-vs-dict requests are compared as namespace
 infosets (expat).
 """
-import copy
+import logging
 
 from . import common, family as F
 from .common import cN, cbool, clist, copt, cstr
@@ -566,6 +566,10 @@ def run(ck):
         "not modelled / not generated: ElementQuery's deep search (a local element name spelled without its path), "
         "simpleContent/mixed types, element refs, anonymous types, Factory.separator, names containing '.'",
     ]
+    # suds reports every failed look-up through logging.error: keep the output readable
+    lg = logging.getLogger("suds")
+    lg.addHandler(logging.NullHandler())
+    lg.propagate = False
     gen_tables.generate("C03Tables")
     proof_ok = ck.prove(THEOREMS) if THEOREMS else None
 
@@ -627,7 +631,11 @@ def run(ck):
         # ---- object vs dict
         for k, t in enumerate(S.types):
             params = [p for p, _ in S.flat(t) if isinstance(p, F.Elem)]
-            chosen = set()
+            if reaches_wildcard(S, t):
+                # a wildcard before a named member captures the look-up of an untyped dict
+                # (schemas violating Unique Particle Attribution; guarded in C01 as well)
+                ck.count("object-vs-dict-skipped-wildcard")
+                continue
             reps = 1 if not thorough else 3
             for rep in range(reps):
                 try:
@@ -644,7 +652,7 @@ def run(ck):
                             dkw[p.name] = to_dict(o)
                     if not okw:
                         continue
-                    e1 = getattr(client.service, "op%d" % k)(**copy.deepcopy(okw)).envelope
+                    e1 = getattr(client.service, "op%d" % k)(**okw).envelope
                     e2 = getattr(client.service, "op%d" % k)(**dkw).envelope
                     b1 = c01.envelope_body(e1)[1].elements()
                     b2 = c01.envelope_body(e2)[1].elements()
@@ -789,6 +797,23 @@ def run(ck):
                     "the algorithm the theorems are about (%s)"
                     % "; ".join("%s x%d" % (u["correspondence"], u["count"]) for u in unproved),
                     {"disagreements": unproved})
+
+
+def reaches_wildcard(S, t):
+    seen, todo = set(), [t]
+    while todo:
+        x = todo.pop()
+        if id(x) in seen:
+            continue
+        seen.add(id(x))
+        for p, _ in S.flat(x):
+            if isinstance(p, F.Any):
+                return True
+            if isinstance(p, F.Elem) and p.tref[0] == "n":
+                y = S.type(p.tref[1], p.tref[2])
+                if y is not None:
+                    todo.append(y)
+    return False
 
 
 def choice_members(t):
